@@ -41,7 +41,7 @@ func main() {
 // ------------------------------------------------------------------------------------------------
 // universe
 
-var files = []string{"a", "b", "src/x", "src/y"}
+var files = []string{"a", "b", "src/x", "src/y", "src/a"}
 
 type taskDef struct {
 	name  string
@@ -69,6 +69,10 @@ var templates = []template{
 	{[]taskDef{{"A", []string{"*"}, nil}, {"N", nil, nil}}, []int{0, 1}},
 	// 6: a task with only a task dependency (no files: always runs)
 	{[]taskDef{{"A", []string{"src/*", "a"}, nil}, {"B", nil, []string{"A"}}}, []int{0, 2, 3}},
+	// 7: a recursive glob over files with the same base name in different directories (a move keeps name and content)
+	{[]taskDef{{"A", []string{"**/a"}, nil}}, []int{0, 4}},
+	// 8: a glob-only task whose glob can come to match nothing (src/x is removed in the focused family)
+	{[]taskDef{{"A", []string{"src/*"}, nil}, {"B", []string{"b"}, []string{"A"}}}, []int{2, 3, 1}},
 }
 
 func (t template) text() string {
@@ -155,6 +159,9 @@ func refInputs(root string, td taskDef) inputs {
 		case "src/*":
 			add(2)
 			add(3)
+		case "**/a":
+			add(0)
+			add(4)
 		case "*":
 			add(0)
 			add(1)
@@ -606,6 +613,8 @@ var alpha = map[int]alphabet{
 	1: {[]string{"c", "w.0.1", "w.0.2", "d.0", "w.1.2", "f.A"}, runsOf([]string{"A", "B", "AB"})},
 	2: {[]string{"c", "w.0.1", "w.0.2", "w.1.2", "f.B"}, runsOf([]string{"A", "B", "AB"})},
 	6: {[]string{"c", "w.0.2", "w.0.1", "w.3.1", "d.3", "f.A"}, runsOf([]string{"A", "B"})},
+	7: {[]string{"w.0.1", "d.0", "w.4.1", "d.4", "w.0.2"}, runsOf([]string{"A"})},
+	8: {[]string{"d.2", "w.2.1", "w.2.2", "f.A"}, runsOf([]string{"A"})},
 }
 
 // all histories of exactly `depth` events whose last event is a run (their prefixes are checked on the way)
@@ -799,12 +808,18 @@ func gen(w *bufio.Writer, args map[string]string) {
 			exhaustive(w, 2, 5)
 			exhaustive(w, 6, 5)
 			exhaustive(w, 0, 4)
+			exhaustive(w, 7, 6)
+			exhaustive(w, 8, 7)
 			if prop == "C01" {
 				crashFamily(w, 2, 2, 8, quickTears, 1)
 			}
 		} else {
 			exhaustive(w, 0, 4)
 			exhaustive(w, 1, 4)
+			// focused single-task families, one level deeper: a moved file under a recursive glob; a glob that
+			// comes to match nothing and then the same files again
+			exhaustive(w, 7, 5)
+			exhaustive(w, 8, 6)
 			if prop == "C01" {
 				crashFamily(w, 2, 1, 8, quickTears, 2)
 			} else {
